@@ -559,11 +559,25 @@ def gen_beyond_module(rng, idx):
     return m
 
 
+def gen_zero_length_module(idx):
+    """directed (no randomness): checked constants whose C value is 0 while the cdef says otherwise, next to
+    agreeing zeros — the witness of the fixed finding zero-const-array-length (/repo 8e135ea), kept in
+    every run so that the defect is reported as a VIOLATION if it returns"""
+    tag = "mz%d" % idx
+    specs = [("int", "plain", 0, 5), ("int", "plain", 0, 0), ("unsigned long", "cast", 0, 1),
+             ("long long", "cast", 0, -1), ("unsigned char", "cast", 0, (1 << 64) - 1), ("int", "enumconst", 0, 7),
+             ("short", "cast", 0, None), ("int", "plain", 5, 0)]
+    consts = [dict(name="K%s_%d" % (tag, i), ctype=t, cval=c, form=f, decl="macro", cdef=e, beyond=False)
+              for i, (t, f, c, e) in enumerate(specs)]
+    return dict(kind="module", name="_c12_%d" % idx, consts=consts, enums=[], structs=[], vars=[], funcs=[], typedefs=[])
+
+
 def generate(ctx):
     n = ctx.n(12, 250)
     cases = [gen_module(ctx.rng, i, (16, 4, 14, 3, 3, 2)) for i in range(n)]
     cases += [gen_category_module(ctx.rng, n + i) for i in range(ctx.n(3, 40))]
     cases += [gen_beyond_module(ctx.rng, n + 100 + i) for i in range(ctx.n(2, 30))]
+    cases.append(gen_zero_length_module(n + 200))
     return cases
 
 
@@ -994,11 +1008,10 @@ MANIFEST = dict(
          "declaration to which the recompiler passes a check value (C12_checked_declaration_iff). The constant's NAME used as "
          "an array length in a run-time type string (ffi.typeof/new/cast/sizeof 'char[N]'): for every getter return code "
          "and 64-bit value the result of the regenerated parse_sequel branch is characterised exactly "
-         "(C12_array_length_decision: code 0 -> the value if <= SSIZE_MAX else error; any other code -> a length only if "
-         "the value is 0; codes >= 2 with a non-zero value -> 'disagreement' error), and end to end through the generated "
+         "(C12_array_length_decision: code 0 -> the value if <= SSIZE_MAX else error; code 1 -> length 0 if the value is 0 "
+         "else error; every other code -> 'disagreement' error whatever the value), and end to end through the generated "
          "getter: agreeing / '...' / unchecked constants give the compiler's value when it is a valid length, a "
-         "disagreeing checked constant raises for every C value except 0 (C12_array_length_mismatch_raises_partial; "
-         "C12_array_length_zero_mismatch_refuted, open finding zero-const-array-length with a one-line fix diff). "
+         "disagreeing checked constant raises for every C value and every cdef value (C12_array_length_mismatch_raises). "
          "Enumerators: API mode passes no check value for them, the compiler's value is used silently "
          "(C12_enumerator_check_refuted, open finding enumerator-unchecked; C12_enumerator_by_flag states both cases); "
          "enumerators of 'enum { A, ... }' always give the compiler's value. For every struct "
@@ -1013,8 +1026,8 @@ MANIFEST = dict(
          "structs are out of the model; array realisation after parsing (new_array_type) is not modelled, only compared. "
          "Known findings: enumerator values are not checked in API mode (enumerator-unchecked, open; upstream's "
          "test_typedef_broken_complete_enum asserts the silent behaviour, so no fix is proposed); a checked constant whose "
-         "C value is 0 is accepted as array length 0 although the cdef says otherwise (zero-const-array-length, open, "
-         "findings/C12-zero-const-array-length.diff); cdef constants outside (-2^64, 2^64) used to be truncated by gcc and "
+         "C value is 0 used to be accepted as array length 0 although the cdef says otherwise (zero-const-array-length, "
+         "fixed in /repo 8e135ea; a directed witness module is part of every run); cdef constants outside (-2^64, 2^64) used to be truncated by gcc and "
          "accepted (const-beyond-64bit, fixed in /repo 52726e0). Calls, globals, global addresses, typedefs, bitfields and "
          "anonymous nested structs are decided by the correspondence run only.",
     design_ref="DESIGN.md §4 C12")
